@@ -586,20 +586,13 @@ func BuildFromAliasedTable(query *Query, as string, expr sqlparser.SimpleTableEx
 			if err != nil {
 				return err
 			}
-			data, err := subquery.exec()
+			// a derived table is a table: its rows are complete - ASYNC columns
+			// filled, AWAIT evaluated - before the enclosing query's WHERE, GROUP BY
+			// and aggregates read them, exactly as the rows of a CTE are
+			data, err := subquery.execAndPostProcess()
 			if err != nil {
 				return err
 			}
-			// (settle, not a copy of the list: what the derived table's deferred
-			// work defers in turn is registered with the derived table)
-			query.postProcessors = append(query.postProcessors, subquery.settle)
-			// the derived table is evaluated here, once, while the query is built
-			subquery.owed = len(subquery.postProcessors)
-			query.wg.Add(1)
-			go func() {
-				subquery.wg.Wait()
-				query.wg.Done()
-			}()
 			array, err := AsArray(data)
 			if err != nil {
 				return err
